@@ -266,9 +266,9 @@ def s2(chk: Check, proj: Project, w) -> None:
     ok = False
     for c in tn:
         a = c.args[0] if c.args else None
-        if isinstance(a, ast.IfExp) and norm(a.test) == flag and isinstance(a.body, ast.Call) and last_attr(a.body.func) in ("conditional_escape", "escape") and norm(a.body.args[0]) == norm(a.orelse):
+        if isinstance(a, ast.IfExp) and norm(a.test) == flag and isinstance(a.body, ast.Call) and last_attr(a.body.func) in ("conditional_escape",) and norm(a.body.args[0]) == norm(a.orelse):
             ok = True
-    chk.ob("S2", "component:_normalize_slot_fills:plain-content", m.loc(tn[0]) if tn else m.loc(f), ok, f"TextNode(conditional_escape(content) if {flag} else content)" if ok else "plain slot content reaches TextNode without `conditional_escape(...) if escape flag`")
+    chk.ob("S2", "component:_normalize_slot_fills:plain-content", m.loc(tn[0]) if tn else m.loc(f), ok, f"TextNode(conditional_escape(content) if {flag} else content)" if ok else "plain slot content reaches TextNode without `conditional_escape(...) if escape flag` (plain `escape()` escapes content that is ALREADY marked safe a second time: a pre-rendered component passed as `slots={'x': html}` shows its markup - and its dependency marker - as visible text)")
     if tn:
         at = cond_atoms(enclosing_stmt(tn[0]))
         okc = any(pol and t.startswith("not callable(") for t, pol in at) or any((not pol) and t.startswith("callable(") for t, pol in at)
@@ -300,7 +300,7 @@ def s2(chk: Check, proj: Project, w) -> None:
     if wrap is not None:
         for r in [x for x in ast.walk(wrap) if isinstance(x, ast.Return) and x.value is not None]:
             v = r.value
-            if isinstance(v, ast.IfExp) and norm(v.test) == flag and isinstance(v.body, ast.Call) and last_attr(v.body.func) in ("conditional_escape", "escape") and norm(v.body.args[0]) == norm(v.orelse):
+            if isinstance(v, ast.IfExp) and norm(v.test) == flag and isinstance(v.body, ast.Call) and last_attr(v.body.func) in ("conditional_escape",) and norm(v.body.args[0]) == norm(v.orelse):
                 okw = True
     chk.ob("S2", "component:_normalize_slot_fills:wrapper-escapes", m.loc(wrap) if wrap is not None else m.loc(g), okw, f"the wrapper returns conditional_escape(rendered) if {flag} else rendered" if okw else "the wrapping closure does not escape the rendered content under the escape flag")
     sl = calls(g, "Slot")
